@@ -16,6 +16,8 @@ import Simfile.Model.Msd
 import Simfile.Model.Source
 import Simfile.Model.Convert
 import Simfile.Model.Views
+import Simfile.Model.Dir
+import Simfile.Model.Mutate
 import Simfile.Spec.Timeline
 import Simfile.Spec.Notes
 import Simfile.Spec.Group
@@ -239,6 +241,23 @@ def jVOut : VOut → Json
   | .notImplemented => Json.arr #[Json.str "NotImplementedError"]
   | .attributeError => Json.arr #[Json.str "AttributeError"]
 
+
+def jFsOp : FsOp → Json
+  | .openR p e => Json.arr #[Json.str "openR", jStr p, jStr e]
+  | .openW p e => Json.arr #[Json.str "openW", jStr p, jStr e]
+  | .write p => Json.arr #[Json.str "write", jStr p]
+  | .close p => Json.arr #[Json.str "close", jStr p]
+def jContent : Content → Json
+  | .original => Json.str "original"
+  | .written b => Json.str (if b then "backup" else "output")
+  | .truncated => Json.str "truncated"
+def jOutcome : Outcome → Json
+  | .valueError => Json.str "ValueError"
+  | .unicodeDecodeError => Json.str "UnicodeDecodeError"
+  | .returned => Json.str "returned"
+  | .propagated => Json.str "propagated"
+  | .saveError => Json.str "saveError"
+
 def jExcept {ε α} (fe : ε → Json) (fa : α → Json) : Except ε α → Json
   | .ok a => jOk (fa a)
   | .error e => fe e
@@ -382,6 +401,54 @@ def handle (j : Json) : R Json := do
   | "views.run" =>
     let (d, outs) := vrun (← getKind (← field j "kind")) (← getDict (← field j "d")) (← getArr getVOp (← field j "ops"))
     pure (Json.mkObj [("d", jDict d), ("outs", jArr jVOut outs)])
+  | "dir.scan" =>
+    pure (match scanDir (← getArr getStr (← field j "listing")) (← getBool (← field j "ignore_duplicate")) with
+      | .ok sd => jOk (Json.mkObj [("sm", jOptStr sd.sm), ("ssc", jOptStr sd.ssc),
+                                  ("open", match sd.openTarget with | .ok p => jStr p | .error _ => Json.str "!FileNotFoundError")])
+      | .error _ => jErr "DuplicateSimfileError")
+  | "dir.pack" =>
+    let es ← getArr (fun e => do
+      pure ({ name := ← getStr (← field e "name"), isDir := ← getBool (← field e "is_dir"),
+              listing := ← getArr getStr (← field e "listing") } : PackEntry)) (← field j "entries")
+    pure (jArr jStr (packDirs es))
+  | "dir.banner" =>
+    let beside ← getArr getStr (← field j "beside")
+    pure (match packBanner (← getArr getStr (← field j "listing")) (← getStr (← field j "pack_name")) (fun n => beside.contains n) with
+      | some (inside, n) => Json.arr #[jBool inside, jStr n]
+      | none => Json.null)
+  | "assets.lookup" =>
+    let c := fieldD j "containing" Json.null
+    pure (match assetLookup (← getStr (← field j "kind")) (← getOptStr (fieldD j "specified" Json.null))
+        (← (if c.isNull then pure none else do pure (some (← getArr getStr c)))) (← getStr (← field j "file"))
+        (← getArr getStr (← field j "dirlist")) with
+      | none => Json.str "unmodelled"
+      | some none => Json.null
+      | some (some (.inl x)) => Json.arr #[Json.str "spec", jStr x]
+      | some (some (.inr x)) => Json.arr #[Json.str "match", jStr x])
+  | "assets.matches" =>
+    pure (match assetMatches (← getStr (← field j "kind")) (← getStr (← field j "name")) with
+      | some b => jBool b | none => Json.str "unmodelled")
+  | "mutate.run" =>
+    let cfg : MutateCfg := { input := ← getStr (← field j "input"), output := ← getOptStr (fieldD j "output" Json.null),
+                             backup := ← getOptStr (fieldD j "backup" Json.null) }
+    let tries ← getArr (fun t => do
+      match (← t.getArr?).toList with
+      | [e, ok] => pure (← getStr e, ← getBool ok)
+      | _ => throw "try expected") (← field j "tries")
+    let body ← (do match (← (← field j "body").getStr?) with
+      | "returns" => pure Body.returns | "cancels" => pure Body.cancels | "raises" => pure Body.raises
+      | s => throw s!"bad body {s}")
+    let problem ← (do match (← (← field j "problem").getStr?) with
+      | "none" => pure SaveProblem.none | "unserializable" => pure SaveProblem.unserializable
+      | "unencodable" => pure SaveProblem.unencodable | s => throw s!"bad problem {s}")
+    let (o, ops) := mutate cfg tries body problem
+    let fault := fieldD j "fault" Json.null
+    let k ← (if fault.isNull then pure none else do pure (some (← getNat fault)))
+    let files ← getArr getStr (← field j "files")
+    let fs0 : List (Str × Content) := files.map fun p => (p, Content.original)
+    let fs1 := runWrites fs0 (given cfg.backup) ops k
+    pure (Json.mkObj [("outcome", jOutcome o), ("ops", jArr jFsOp ops), ("detected", jOptStr (detectEncoding tries)),
+                      ("files", jArr (fun (pc : Str × Content) => Json.arr #[jStr pc.1, jContent pc.2]) fs1)])
   | "msd.safe" => pure (jBool (safeParams (← getArr getParam (← field j "params")) false))
   | "load.any" =>
     let name ← getOptStr (fieldD j "name" Json.null)
